@@ -123,7 +123,13 @@ def runner(rep, tier, seed, replay):
     rs = run_tlc("History", "History_sim", simulate=max(3, n // 50), depth=20, seed=seed, workers=1, coverage=False,
                  on_replay=lambda v: hists.append(v) if len(hists) < n else None, keep_replays=False, timeout=1800)
     rep.add_tlc(rs)
-    with ProcessPoolExecutor(max_workers=6) as ex:
+    # every sequence of 4 typed lines over {a line, a line with a leading blank, another line} (the skip rules: repeat of the
+    # line recorded last, also across an unrecorded line) - exhaustive, from the same module
+    rt = run_tlc("History", "History_typed", timeout=600)
+    rep.add_tlc(rt)
+    typed = [h for h in rt.replays if sum(1 for o in h if o["op"] == "typed") >= (4 if tier == "quick" else 3)]
+    hists += typed
+    with ProcessPoolExecutor(max_workers=8) as ex:
         runs = list(ex.map(run_history, [(h, seed) for h in hists]))
     bad = [e for (_, e) in runs if e]
     if len(bad) > max(2, n // 4):
@@ -162,7 +168,7 @@ def runner(rep, tier, seed, replay):
                         "`history add` gets its text through a double-quoted command substitution, so the tokenizer is not in play",
                         "Python's sqlite3 module is the independent reader; search results are only required to contain every row that "
                         "holds the pattern literally (% and _ are wildcards)"]
-    return rep.finish(rule="TLC-simulated histories of 14 operations (add from fresh processes in directories `plain`, `d'q`, `d%p`; typed "
+    return rep.finish(rule="every sequence of 4 typed lines over {line, line with leading blank, other line} (exhaustive) and TLC-simulated histories of 14 operations (add from fresh processes in directories `plain`, `d'q`, `d%p`; typed "
                            "lines incl. leading blank and repeats; list; search with patterns it's % _ a\\b -- plain; delete of up to 2 "
                            "rows) over texts with ' \" % _ \\ ; -- ) and multi-byte characters; non-trivial = every history; distinct by seed")
 
